@@ -47,6 +47,10 @@ IO_TIMEOUT = 40.0
 
 _ctx_cache: dict = {}
 
+# log records emitted while a world is being torn down (its handler is already gone) would otherwise be
+# printed by logging.lastResort
+logging.getLogger().addHandler(logging.NullHandler())
+
 
 class PeerTimeout(Exception):
     pass
